@@ -130,6 +130,28 @@ func genC09(t *rapid.T) BytesCase {
 		s := GenMutant(t, Tokens(i), RapidLayout{T: t, EOL: "\n"})
 		return mkBytesCase([]byte(s), "mutant", false)
 	case 5: // pathological nesting
+		if rapid.Bool().Draw(t, "balanced") {
+			// well-formed deep nesting: the description is valid, whatever walks the finished tree must cope with the depth
+			pair := rapid.SampledFrom([][2]string{{"(a:", ")"}, {"(a: int, b:", ")"}, {"(x: string, a:", ", z: bool)"}, {"?[]", ""}, {"[string]", ""}, {"[]", ""}, {"[](a:", ")"}, {"?(a:", ")"}}).Draw(t, "pair")
+			n := rapid.SampledFrom([]int{1, 8, 25, 32, 40, 64, 100, 300, 1000, 3000}).Draw(t, "depth")
+			if n*(len(pair[0])+len(pair[1])) > 20000 {
+				n = 20000 / (len(pair[0]) + len(pair[1]))
+			}
+			nest := strings.Repeat(pair[0], n) + "int" + strings.Repeat(pair[1], n)
+			var sb strings.Builder
+			sb.WriteString("interface a.b\n")
+			switch rapid.IntRange(0, 3).Draw(t, "where") {
+			case 0:
+				sb.WriteString("type T (f: " + nest + ")\nmethod F() -> ()\n")
+			case 1:
+				sb.WriteString("method F(a: " + nest + ") -> ()\n")
+			case 2:
+				sb.WriteString("method F() -> (b: " + nest + ")\n")
+			default:
+				sb.WriteString("method F() -> ()\nerror E (a: " + nest + ")\n")
+			}
+			return mkBytesCase([]byte(sb.String()), "balanced-nesting", false)
+		}
 		unit := rapid.SampledFrom([]string{"(", "?[]", "[string]", "?", "[]", "(a:", "((", "#", "x", "(a,"}).Draw(t, "unit")
 		n := rapid.SampledFrom([]int{1, 10, 100, 1000, 5000, 20000}).Draw(t, "n")
 		if n*len(unit) > 60000 {
